@@ -642,7 +642,26 @@ pub fn check_c02(tier: &str) -> i32 {
     }
     let st = explore_sequences("C02", &cfgs, depth.min(4), "H", &default_alphabet);
     rep.phase("sequences", st, json!({"depth": depth.min(4), "configs": cfgs.len()}));
-    for c in ["read-ok", "write-ok", "write-exception", "unknown-function", "empty", "unconfigured-unit", "denied", "invalid:fc15:over-limit"] {
+    // requests that arrive in two reads with a server command handled in between
+    let mut jobs: Vec<(ServerCfg, String, Vec<u8>)> = vec![];
+    for cfg in base_cfgs(None) {
+        let alpha = default_alphabet(&cfg);
+        for (name, unit, p) in &alpha {
+            if !framable(cfg.rtu, *unit, p) {
+                continue;
+            }
+            let f = if cfg.rtu { pdu::rtu_frame(*unit, p) } else { pdu::mbap_frame(0x1111, *unit, p) };
+            jobs.push((cfg.clone(), name.to_string(), f.clone()));
+            // followed by a second request, so that a mis-framed remainder is interpreted
+            let g = if cfg.rtu { pdu::rtu_frame(*unit, &alpha[10].2) } else { pdu::mbap_frame(0x1112, *unit, &alpha[10].2) };
+            jobs.push((cfg.clone(), format!("{name}+write-reg"), [f, g].concat()));
+        }
+    }
+    let st = parallel(jobs.len(), |i, st| {
+        crate::checks::framing::server_stream_job_with_command("C02", &jobs[i].0, &jobs[i].1, &jobs[i].2, st);
+    });
+    rep.phase("segmented requests with a server command between the reads", st, json!({"streams": jobs.len()}));
+    for c in ["command-between-reads", "read-ok", "write-ok", "write-exception", "unknown-function", "empty", "unconfigured-unit", "denied", "invalid:fc15:over-limit"] {
         rep.require_class(c);
     }
     rep.finish()
